@@ -1,0 +1,41 @@
+//go:build verif
+// +build verif
+
+package schedulerplugin
+
+import "net"
+
+// VerifChecklist is the snapshot a resync pass works on (fetchChecklist), kept by the verification harness so
+// that other requests can be placed between taking the snapshot and handling one of its items, as happens in
+// a real pass. Built only with -tags verif; adds no behaviour.
+type VerifChecklist struct{ meta *resyncMeta }
+
+// VerifResyncFetch takes the snapshot of a resync pass.
+func (p *FloatingIPPlugin) VerifResyncFetch() (*VerifChecklist, error) {
+	meta := &resyncMeta{}
+	if err := p.fetchChecklist(meta); err != nil {
+		return nil, err
+	}
+	return &VerifChecklist{meta: meta}, nil
+}
+
+// Key returns the key the snapshot recorded for ip.
+func (c *VerifChecklist) Key(ip net.IP) (string, bool) {
+	for _, o := range c.meta.allocatedIPs {
+		if o.fip.IP.Equal(ip) {
+			return o.fip.Key, true
+		}
+	}
+	return "", false
+}
+
+// VerifResyncItem handles the snapshot's item of one ip.
+func (p *FloatingIPPlugin) VerifResyncItem(c *VerifChecklist, ip net.IP) {
+	only := &resyncMeta{}
+	for _, o := range c.meta.allocatedIPs {
+		if o.fip.IP.Equal(ip) {
+			only.allocatedIPs = append(only.allocatedIPs, o)
+		}
+	}
+	p.resyncAllocatedIPs(only)
+}
